@@ -96,7 +96,9 @@ func (c *webClient) Username() string {
 
 func (c *webClient) Init(username string, perms []string) {
 	c.username = username
-	c.permissions = perms
+	// we modify our permissions in place, don't share them with the
+	// group description, the token or other clients
+	c.permissions = append([]string(nil), perms...)
 }
 
 func (c *webClient) Permissions() []string {
